@@ -373,6 +373,7 @@ public:
 
         m_nmatop = 0;
         m_niter = 0;
+        m_info = CompInfo::NotComputed;
 
         // Initialize the Arnoldi factorization
         MapConstVec v0(init_resid, m_n);
